@@ -788,3 +788,234 @@ func genPrivate(r *Rng, idx int, tier string, step func(op string) string) {
 	}
 	step("magnet")
 }
+
+func init() {
+	register(&Suite{Name: "crashpoints", NewStepper: newLoopStepper, GenStep: genCrashpoints})
+}
+
+// genCrashpoints: downloads from honest and corrupting peers with gated writes, periodic resume writes,
+// stop/start/verify; at many points the process "dies": a fresh session is opened on a snapshot of the
+// resume database and of the storage (optionally with files missing) and must not claim unwritten pieces.
+func genCrashpoints(r *Rng, idx int, tier string, step func(op string) string) {
+	l := genLayout(r)
+	for l.numPieces() > 6 {
+		l.pl *= 2
+	}
+	o := step(fmt.Sprintf("new pl=%d files=%s cfg.AllowedFastSet=0", l.pl, l.filesArg()))
+	if !strings.HasPrefix(o, "ok") {
+		return
+	}
+	last := step("start")
+	var peers []*scriptPeer
+	nextK := 1
+	gated := false
+	do := func(op string) string {
+		last = step(op)
+		absorb(peers, last)
+		return last
+	}
+	crash := func() {
+		del := ""
+		if r.Chance(35) {
+			del = " delete=" + r.Pick2("all", fmt.Sprint(r.Intn(len(l.lens))))
+		}
+		do("crashcheck" + del)
+	}
+	attach := func(kind string) *scriptPeer {
+		p := &scriptPeer{k: nextK, kind: kind}
+		nextK++
+		peers = append(peers, p)
+		if !strings.HasPrefix(do(fmt.Sprintf("peer k=%d fast=1 ext=0", p.k)), "accepted") {
+			p.closed = true
+			return p
+		}
+		do(fmt.Sprintf("msg p=%d t=haveall", p.k))
+		do(fmt.Sprintf("msg p=%d t=unchoke", p.k))
+		p.unchoked = true
+		return p
+	}
+	steps := 10 + 3*l.numPieces()
+	if tier == "thorough" {
+		steps *= 2
+	}
+	for s := 0; s < steps; s++ {
+		if strings.HasPrefix(last, "hang") || strings.HasPrefix(last, "dead") {
+			return
+		}
+		var live []*scriptPeer
+		for _, p := range peers {
+			if !p.closed {
+				live = append(live, p)
+			}
+		}
+		roll := r.Intn(100)
+		switch {
+		case roll < 18:
+			crash()
+		case roll < 26:
+			do("persist")
+			if r.Chance(60) {
+				crash()
+			}
+		case roll < 32 && !gated:
+			do("gate kind=write on=1")
+			gated = true
+		case roll < 40 && gated:
+			if r.Chance(50) {
+				crash() // write in flight
+			}
+			do("gate kind=write on=0")
+			gated = false
+			if r.Chance(50) {
+				crash() // right after the write completed
+			}
+		case roll < 45:
+			do("stop")
+			for _, p := range peers {
+				p.closed = true
+				p.pending = nil
+			}
+			if r.Chance(50) {
+				crash()
+			}
+			do("start")
+		case roll < 48:
+			do("verify")
+			for _, p := range peers {
+				p.closed = true
+				p.pending = nil
+			}
+			crash()
+			do("start")
+		case len(live) == 0 || (roll < 55 && nextK <= 6):
+			if nextK <= 8 {
+				attach(r.Pick2("honest", "honest", "corrupt"))
+			}
+		default:
+			p := live[r.Intn(len(live))]
+			if len(p.pending) == 0 {
+				continue
+			}
+			q := p.pending[0]
+			p.pending = p.pending[1:]
+			data := "true"
+			if p.kind == "corrupt" && r.Chance(35) {
+				data = "flip"
+			}
+			do(fmt.Sprintf("msg p=%d t=piece i=%d b=%d l=%d data=%s", p.k, q[0], q[1], q[2], data))
+		}
+	}
+	if gated {
+		do("gate kind=write on=0")
+	}
+	crash()
+	do("stop")
+	do("crashcheck")
+}
+
+func init() {
+	register(&Suite{Name: "serve", NewStepper: newLoopStepper, GenStep: genServe})
+}
+
+// genServe: a torrent whose files are (partly) on disk serves scripted leechers: every choke / fast /
+// allowed-fast / piece-held combination, request triples from the 32-bit edge set, duplicates, cancels,
+// tiny read-cache block sizes so that requests cross cache blocks.
+func genServe(r *Rng, idx int, tier string, step func(op string) string) {
+	l := genLayout(r)
+	for l.numPieces() > 6 {
+		l.pl *= 2
+	}
+	rcb := r.Pick(1, 3, 7, 16, 100, 16384, 131072)
+	o := step(fmt.Sprintf("new pl=%d files=%s seeded=1 cfg.AllowedFastSet=%d cfg.ReadCacheBlockSize=%d cfg.ReadCacheSize=%d cfg.UnchokedPeers=%d cfg.OptimisticUnchokedPeers=%d",
+		l.pl, l.filesArg(), r.Pick(0, 2, 10), rcb, r.Pick(1, 64, 4096, 1<<20), r.Pick(1, 2, 3), r.Pick(0, 1)))
+	if !strings.HasPrefix(o, "ok") {
+		return
+	}
+	if r.Chance(30) {
+		// only part of the data is there: some requests are for pieces we do not have
+		step(fmt.Sprintf("mutate file=%d how=corrupt off=%d", r.Intn(len(l.lens)), r.Pick(0, 1, l.pl)))
+	}
+	last := step("start")
+	nextK := 1
+	type lp struct {
+		k          int
+		closed     bool
+		interested bool
+	}
+	var peers []*lp
+	do := func(op string) string {
+		last = step(op)
+		m := obsKV(last)
+		live := map[string]bool{}
+		for _, k := range commaList(m["peers"]) {
+			live[k] = true
+		}
+		for _, p := range peers {
+			if _, ok := m["peers"]; ok && !live[fmt.Sprint(p.k)] {
+				p.closed = true
+			}
+		}
+		return last
+	}
+	steps := r.Range(10, 30)
+	if tier == "thorough" {
+		steps *= 2
+	}
+	for s := 0; s < steps; s++ {
+		if strings.HasPrefix(last, "hang") || strings.HasPrefix(last, "dead") {
+			return
+		}
+		var live []*lp
+		for _, p := range peers {
+			if !p.closed {
+				live = append(live, p)
+			}
+		}
+		if len(live) == 0 || (r.Chance(12) && nextK <= 6) {
+			p := &lp{k: nextK}
+			nextK++
+			peers = append(peers, p)
+			if !strings.HasPrefix(do(fmt.Sprintf("peer k=%d fast=%s ext=0", p.k, b01(r.Chance(60)))), "accepted") {
+				p.closed = true
+			}
+			continue
+		}
+		p := live[r.Intn(len(live))]
+		roll := r.Intn(100)
+		switch {
+		case roll < 15:
+			do(fmt.Sprintf("msg p=%d t=interested", p.k))
+			p.interested = true
+		case roll < 20:
+			do(fmt.Sprintf("msg p=%d t=notinterested", p.k))
+		case roll < 26:
+			i := r.Intn(l.numPieces())
+			do(fmt.Sprintf("msg p=%d t=cancel i=%d b=%d l=%d", p.k, i, r.Pick(0, 1), r.Pick(1, l.pieceLen(i))))
+		case roll < 30:
+			do(fmt.Sprintf("disconnect p=%d", p.k))
+			p.closed = true
+		default:
+			i := r.Intn(l.numPieces() + 1)
+			pl := uint32(l.pieceLen(min(i, l.numPieces()-1)))
+			var b, ln uint32
+			if r.Chance(65) {
+				// in range, not aligned to anything
+				b = uint32(r.Intn(int(pl)))
+				ln = uint32(r.Range(1, min(int(pl-b), 16384)))
+			} else {
+				b = r.U32Edge(pl)
+				ln = r.U32Edge(pl)
+			}
+			if ln > 16384 {
+				// the reader closes the connection on longer requests before the loop sees them
+				ln = uint32(r.Pick(0, 1, 16384))
+			}
+			op := fmt.Sprintf("msg p=%d t=request i=%d b=%d l=%d", p.k, i, b, ln)
+			do(op)
+			if r.Chance(15) {
+				do(op) // duplicate
+			}
+		}
+	}
+	step("obs")
+}
